@@ -1496,3 +1496,755 @@ Proof.
   cbn in G1, G2. destruct G1 as (i1 & A1 & B1). destruct G2 as (i2 & A2 & B2).
   assert (i1 = i) by congruence. assert (i2 = i) by congruence. subst. split; congruence.
 Qed.
+
+(* ======================================================================================== *)
+(* Invariant 4: ownership of blocks - every block is live (published), speculative (owned by *)
+(* exactly one thread inside the slow path) or dead (destroyed once by the loser that made it)*)
+(* ======================================================================================== *)
+Definition slow_nt (p : pc) : option nat := match p with SlowCas _ nt _ _ => Some nt | _ => None end.
+Definition ret_old (p : pc) : option nat :=
+  match p with RetLoad o _ | RetStrong o _ _ _ _ _ _ | RetWeak o _ _ _ _ _ _ => Some o | _ => None end.
+Definition dtor_of (x : bstat) : nat := match x with BDead => 1%nat | _ => 0%nat end.
+Definition mem (b : nat) (ks : list nat) : bool := existsb (Nat.eqb b) ks.
+
+Lemma mem_In : forall b ks, mem b ks = true <-> In b ks.
+Proof.
+  intros b ks. unfold mem. rewrite existsb_exists. split.
+  - intros (x & Hx & E). apply Nat.eqb_eq in E. subst. assumption.
+  - intro H. exists b. split; [assumption|apply Nat.eqb_refl].
+Qed.
+Lemma mem_false : forall b ks, mem b ks = false <-> ~ In b ks.
+Proof.
+  intros b ks. rewrite <- mem_In. destruct (mem b ks); split; intro H.
+  - discriminate.
+  - exfalso. apply H. reflexivity.
+  - intro; discriminate.
+  - reflexivity.
+Qed.
+
+Lemma nth_error_mark_all : forall ks l x b,
+  nth_error (mark_all l ks x) b = match nth_error l b with None => None | Some y => Some (if mem b ks then x else y) end.
+Proof.
+  induction ks as [|k ks IH]; intros l x b; cbn [mark_all fold_left].
+  - cbn. destruct (nth_error l b); reflexivity.
+  - unfold mark_all in IH. rewrite IH, nth_error_set_nth. destruct (nth_error l b) as [y|]; [|reflexivity].
+    unfold mem. cbn [existsb]. fold (mem b ks). rewrite (Nat.eqb_sym b k).
+    destruct (Nat.eqb k b), (mem b ks); reflexivity.
+Qed.
+Lemma length_mark_all : forall ks l x, length (mark_all l ks x) = length l.
+Proof. induction ks; intros; cbn; [reflexivity|]. unfold mark_all in IHks. rewrite IHks. apply length_set_nth. Qed.
+
+Lemma nth_error_bump : forall l k b,
+  nth_error (bump l k) b = match nth_error l b with None => None | Some c => Some (if Nat.eqb k b then S c else c) end.
+Proof.
+  intros l k b. unfold bump. destruct (nth_error l k) as [c|] eqn:E.
+  - rewrite nth_error_set_nth. destruct (nth_error l b) as [c'|] eqn:E'; [|reflexivity].
+    destruct (Nat.eqb_spec k b); [|reflexivity]. subst. congruence.
+  - destruct (nth_error l b) as [c'|] eqn:E'; [|reflexivity]. destruct (Nat.eqb_spec k b); [|reflexivity]. subst. congruence.
+Qed.
+Lemma length_bump : forall l k, length (bump l k) = length l.
+Proof. intros. unfold bump. destruct (nth_error l k); [apply length_set_nth|reflexivity]. Qed.
+Lemma nth_error_bump_all : forall ks l b, NoDup ks ->
+  nth_error (bump_all l ks) b = match nth_error l b with None => None | Some c => Some (if mem b ks then S c else c) end.
+Proof.
+  induction ks as [|k ks IH]; intros l b Hnd; cbn [bump_all fold_left].
+  - cbn. destruct (nth_error l b); reflexivity.
+  - inversion Hnd; subst. unfold bump_all in IH. rewrite IH by assumption. rewrite nth_error_bump.
+    destruct (nth_error l b) as [c|]; [|reflexivity].
+    unfold mem. cbn [existsb]. fold (mem b ks). rewrite (Nat.eqb_sym b k).
+    destruct (Nat.eqb_spec k b) as [->|N]; cbn [orb]; [|reflexivity].
+    assert (mem b ks = false) by (apply mem_false; assumption). rewrite H. reflexivity.
+Qed.
+Lemma length_bump_all : forall ks l, length (bump_all l ks) = length l.
+Proof. induction ks; intros; cbn; [reflexivity|]. unfold bump_all in IHks. rewrite IHks. apply length_bump. Qed.
+
+Lemma nth_error_repeat' : forall A (a : A) m n x, nth_error (repeat a m) n = Some x -> x = a /\ (n < m)%nat.
+Proof.
+  intros A a m n x H. split.
+  - apply nth_error_In in H. apply repeat_spec in H. assumption.
+  - rewrite <- (repeat_length a m). apply nth_error_Some. congruence.
+Qed.
+Lemma nth_error_repeat_lt : forall A (a : A) m n, (n < m)%nat -> nth_error (repeat a m) n = Some a.
+Proof.
+  intros A a m n H. destruct (nth_error (repeat a m) n) as [x|] eqn:E.
+  - apply nth_error_repeat' in E. destruct E; subst; reflexivity.
+  - apply nth_error_None in E. rewrite repeat_length in E. lia.
+Qed.
+
+Lemma slice_spec : forall (a spec : list nat) bn e, bn = Z.of_nat (length a) -> Z.of_nat (length spec) = e - bn ->
+  slice (a ++ spec) (delete_lo bn e) (delete_hi bn e) = spec.
+Proof.
+  intros a spec bn e Hb He. unfold slice. destruct (cv_gen_ranges bn e) as (_ & _ & _ & -> & -> & _).
+  assert (Z.to_nat e = length (a ++ spec)) by (rewrite app_length; lia).
+  rewrite H, firstn_all. subst bn. rewrite Nat2Z.id. rewrite skipn_app, skipn_all, Nat.sub_diag. reflexivity.
+Qed.
+
+Record Inv4 (s : st) : Prop := {
+  i4_len : length (bdtor s) = length (bctor s) /\ length (bst s) = length (bctor s);
+  i4_dtor : forall b x, nth_error (bst s) b = Some x -> nth_error (bdtor s) b = Some (dtor_of x);
+  i4_live : forall b, In b (live s) <-> nth_error (bst s) b = Some BLive;
+  i4_nodup : NoDup (live s);
+  i4_spec : forall t th bt nt bn e, nth_error (threads s) t = Some th -> tpc th = SlowCas bt nt bn e ->
+      exists spec, tblocks (table s nt) = tblocks (table s bt) ++ spec /\ NoDup spec /\
+        (forall b, In b spec <-> nth_error (bst s) b = Some (BSpec t)) /\
+        bn = tsize (table s bt) /\ Z.of_nat (length spec) = e - bn;
+  i4_owner : forall b t, nth_error (bst s) b = Some (BSpec t) ->
+      exists th, nth_error (threads s) t = Some th /\ slow_nt (tpc th) <> None
+}.
+
+Lemma inv4_init : forall b t0 progs, Inv4 (init b t0 progs).
+Proof.
+  intros. constructor; cbn.
+  - split; reflexivity.
+  - intros [|b0] x H; discriminate.
+  - intro b0. split; [intros []|]. destruct b0; discriminate.
+  - constructor.
+  - intros t th bt nt bn e H Hpc. apply nth_error_In in H. apply in_map_iff in H. destruct H as (p & <- & _). discriminate.
+  - intros [|b0] t H; discriminate.
+Qed.
+
+(* other threads' tables are untouched by a step of t *)
+Lemma other_tables_same : forall s s' t t' th' bt nt bn e, Inv1 s -> tables_ext s s' t -> t' <> t ->
+  nth_error (threads s) t' = Some th' -> tpc th' = SlowCas bt nt bn e ->
+  tblocks (table s' nt) = tblocks (table s nt) /\ tblocks (table s' bt) = tblocks (table s bt).
+Proof.
+  intros s s' t t' th' bt nt bn e I1 Hext Hne Hth Hpc. pose proof (i1_pc s I1 _ _ Hth) as P. rewrite Hpc in P. cbn in P.
+  destruct P as (tb & tn & spec & Hb & Hn & Hpb & Hst & _).
+  destruct (Hext _ _ Hn) as (tn' & Hn' & _ & Hsame). rewrite (Hsame t' Hne (or_introl Hst)) in Hn'.
+  destruct (Hext _ _ Hb) as (tb' & Hb' & Hpub & _). destruct (Hpub Hpb) as [_ Hbl].
+  rewrite (table_nth _ _ _ Hn), (table_nth _ _ _ Hn'), (table_nth _ _ _ Hb), (table_nth _ _ _ Hb'). auto.
+Qed.
+
+Lemma inv4_frame : forall s s' t th th',
+  Inv1 s -> Inv4 s -> tables_ext s s' t ->
+  nth_error (threads s) t = Some th -> threads s' = set_nth t th' (threads s) ->
+  (length (bdtor s') = length (bctor s') /\ length (bst s') = length (bctor s')) ->
+  (forall b x, nth_error (bst s') b = Some x -> nth_error (bdtor s') b = Some (dtor_of x)) ->
+  (forall b, In b (live s') <-> nth_error (bst s') b = Some BLive) ->
+  NoDup (live s') ->
+  (forall b u, u <> t -> (nth_error (bst s') b = Some (BSpec u) <-> nth_error (bst s) b = Some (BSpec u))) ->
+  (forall bt nt bn e, tpc th' = SlowCas bt nt bn e ->
+      exists spec, tblocks (table s' nt) = tblocks (table s' bt) ++ spec /\ NoDup spec /\
+        (forall b, In b spec <-> nth_error (bst s') b = Some (BSpec t)) /\
+        bn = tsize (table s' bt) /\ Z.of_nat (length spec) = e - bn) ->
+  (forall b, nth_error (bst s') b = Some (BSpec t) -> slow_nt (tpc th') <> None) ->
+  Inv4 s'.
+Proof.
+  intros s s' t th th' I1 I4 Hext Hth Hthr Hlen Hdt Hlive Hnd Hbs Hmine Hown.
+  constructor; auto.
+  - intros t' th0 bt nt bn e H0 Hpc. rewrite Hthr, nth_error_set_nth in H0.
+    destruct (nth_error (threads s) t') as [y|] eqn:Ey; [|discriminate]. inversion H0; subst th0; clear H0.
+    destruct (Nat.eqb_spec t t') as [<-|Hne]; [apply Hmine; assumption|].
+    destruct (i4_spec s I4 _ _ _ _ _ _ Ey Hpc) as (spec & A & B & C & D & E).
+    destruct (other_tables_same s s' t t' y bt nt bn e I1 Hext (not_eq_sym Hne) Ey Hpc) as [E1 E2].
+    exists spec. rewrite E1, E2. split; [assumption|]. split; [assumption|]. split.
+    + intro b. rewrite (Hbs b t' (not_eq_sym Hne)). apply C.
+    + split; [|assumption]. unfold tsize. rewrite E2. exact D.
+  - intros b u Hb. destruct (Nat.eq_dec u t) as [->|Hne].
+    + exists th'. split; [|apply Hown with b; assumption].
+      rewrite Hthr, nth_error_set_nth, Hth, Nat.eqb_refl. reflexivity.
+    + apply (Hbs b u Hne) in Hb. destruct (i4_owner s I4 _ _ Hb) as (thu & Hu & Hs). exists thu. split; [|assumption].
+      rewrite Hthr, nth_error_set_nth, Hu. destruct (Nat.eqb_spec t u); [congruence|reflexivity].
+Qed.
+
+(* steps that do not touch the blocks *)
+Lemma inv4_same : forall s s' t th th',
+  Inv1 s -> Inv4 s -> tables_ext s s' t ->
+  nth_error (threads s) t = Some th -> threads s' = set_nth t th' (threads s) ->
+  bctor s' = bctor s -> bdtor s' = bdtor s -> bst s' = bst s -> cur s' = cur s ->
+  slow_nt (tpc th) = None -> slow_nt (tpc th') = None -> Inv4 s'.
+Proof.
+  intros s s' t th th' I1 I4 Hext Hth Hthr E1 E2 E3 Ec Hs Hs'.
+  assert (EL : live s' = live s).
+  { destruct (i1_cur s I1) as (tc & Hc & Hcst & _). destruct (Hext _ _ Hc) as (tc' & Hc' & Hpub & _).
+    destruct (Hpub (published_cur _ Hcst)) as [_ Hbl]. unfold live. rewrite Ec, (table_nth _ _ _ Hc), (table_nth _ _ _ Hc'). assumption. }
+  eapply (inv4_frame s s' t th th'); eauto.
+  - rewrite E1, E2, E3. apply (i4_len s I4).
+  - rewrite E2, E3. apply (i4_dtor s I4).
+  - rewrite EL, E3. apply (i4_live s I4).
+  - rewrite EL. apply (i4_nodup s I4).
+  - intros b u _. rewrite E3. reflexivity.
+  - intros bt nt bn e Hpc. rewrite Hpc in Hs'. discriminate.
+  - intros b Hb. rewrite E3 in Hb. destruct (i4_owner s I4 _ _ Hb) as (th0 & H0 & Hn). rewrite Hth in H0. inversion H0; subst. contradiction.
+Qed.
+
+Lemma prepare_blocks : forall s t th bt nt fresh e,
+  let k := created s (tsize (table s bt)) e in
+  bctor (prepare s t th bt nt fresh e) = bctor s ++ repeat 1%nat k /\
+  bdtor (prepare s t th bt nt fresh e) = bdtor s ++ repeat 0%nat k /\
+  bst (prepare s t th bt nt fresh e) = bst s ++ repeat (BSpec t) k.
+Proof. intros. unfold prepare. destruct (is_freed (table s bt)); repeat split; reflexivity. Qed.
+
+Lemma live_same : forall s s' t, Inv1 s -> tables_ext s s' t -> cur s' = cur s -> live s' = live s.
+Proof.
+  intros s s' t I1 Hext Ec. destruct (i1_cur s I1) as (tc & Hc & Hcst & _). destruct (Hext _ _ Hc) as (tc' & Hc' & Hpub & _).
+  destruct (Hpub (published_cur _ Hcst)) as [_ Hbl]. unfold live. rewrite Ec, (table_nth _ _ _ Hc), (table_nth _ _ _ Hc'). assumption.
+Qed.
+
+(* destroying the speculative blocks `spec` of thread t (loser path) *)
+Lemma kill_facts : forall s t spec, Inv4 s -> NoDup spec ->
+  (forall b, In b spec <-> nth_error (bst s) b = Some (BSpec t)) ->
+  let B0 := mark_all (bst s) spec BDead in let D0 := bump_all (bdtor s) spec in
+  length D0 = length (bctor s) /\ length B0 = length (bctor s) /\
+  (forall b x, nth_error B0 b = Some x -> nth_error D0 b = Some (dtor_of x)) /\
+  (forall b, nth_error B0 b = Some BLive <-> nth_error (bst s) b = Some BLive) /\
+  (forall b u, u <> t -> (nth_error B0 b = Some (BSpec u) <-> nth_error (bst s) b = Some (BSpec u))) /\
+  (forall b, nth_error B0 b <> Some (BSpec t)).
+Proof.
+  intros s t spec I4 Hnd Hsp B0 D0. destruct (i4_len s I4) as [L1 L2].
+  assert (HB : forall b, nth_error B0 b = match nth_error (bst s) b with None => None | Some y => Some (if mem b spec then BDead else y) end)
+    by (intro; apply nth_error_mark_all).
+  assert (HD : forall b, nth_error D0 b = match nth_error (bdtor s) b with None => None | Some c => Some (if mem b spec then S c else c) end)
+    by (intro; apply nth_error_bump_all; assumption).
+  split; [unfold D0; rewrite length_bump_all; assumption|]. split; [unfold B0; rewrite length_mark_all; assumption|].
+  split; [|split; [|split]].
+  - intros b x Hb. rewrite HB in Hb. rewrite HD. destruct (nth_error (bst s) b) as [y|] eqn:Ey; [|discriminate].
+    rewrite (i4_dtor s I4 _ _ Ey). inversion Hb; subst x; clear Hb. destruct (mem b spec) eqn:Em; [|reflexivity].
+    apply mem_In in Em. apply Hsp in Em. rewrite Ey in Em. inversion Em; subst y. reflexivity.
+  - intro b. rewrite HB. destruct (nth_error (bst s) b) as [y|] eqn:Ey; [|tauto]. destruct (mem b spec) eqn:Em; [|tauto].
+    apply mem_In in Em. apply Hsp in Em. rewrite Ey in Em. inversion Em; subst y. split; discriminate.
+  - intros b u Hu. rewrite HB. destruct (nth_error (bst s) b) as [y|] eqn:Ey; [|tauto]. destruct (mem b spec) eqn:Em; [|tauto].
+    apply mem_In in Em. apply Hsp in Em. rewrite Ey in Em. inversion Em; subst y. split; intro E; inversion E; congruence.
+  - intros b E. rewrite HB in E. destruct (nth_error (bst s) b) as [y|] eqn:Ey; [|discriminate]. destruct (mem b spec) eqn:Em; [discriminate|].
+    inversion E; subst y. apply mem_false in Em. apply Em. apply Hsp. assumption.
+Qed.
+
+Lemma inv4_prepare_gen : forall s s' t th bt nt bn e B0 D0 k,
+  Inv1 s -> Inv4 s -> tables_ext s s' t ->
+  nth_error (threads s) t = Some th -> threads s' = set_nth t (goto th (SlowCas bt nt bn e)) (threads s) ->
+  bctor s' = bctor s ++ repeat 1%nat k -> bdtor s' = D0 ++ repeat 0%nat k -> bst s' = B0 ++ repeat (BSpec t) k ->
+  length D0 = length (bctor s) -> length B0 = length (bctor s) ->
+  (forall b x, nth_error B0 b = Some x -> nth_error D0 b = Some (dtor_of x)) ->
+  (forall b, nth_error B0 b = Some BLive <-> nth_error (bst s) b = Some BLive) ->
+  (forall b u, u <> t -> (nth_error B0 b = Some (BSpec u) <-> nth_error (bst s) b = Some (BSpec u))) ->
+  (forall b, nth_error B0 b <> Some (BSpec t)) ->
+  cur s' = cur s ->
+  tblocks (table s' nt) = tblocks (table s' bt) ++ seq (length (bctor s)) k -> bn = tsize (table s' bt) -> Z.of_nat k = e - bn ->
+  Inv4 s'.
+Proof.
+  intros s s' t th bt nt bn e B0 D0 k I1 I4 Hext Hth Hthr Ec Ed Eb LD LB Hdt Hlv Hou Hnt Ecur Htab Hbn Hk.
+  set (nb := length (bctor s)) in *.
+  assert (EL : live s' = live s) by (eapply live_same; eauto).
+  assert (HB : forall b, nth_error (bst s') b = if (b <? nb)%nat then nth_error B0 b else
+                 if (b - nb <? k)%nat then Some (BSpec t) else None).
+  { intro b. rewrite Eb. destruct (Nat.ltb_spec b nb).
+    - apply nth_error_app1. lia.
+    - rewrite nth_error_app2 by lia. rewrite LB. fold nb. destruct (Nat.ltb_spec (b - nb) k).
+      + apply nth_error_repeat_lt; assumption.
+      + apply nth_error_None. rewrite repeat_length. assumption. }
+  assert (HBlt : forall b x, nth_error B0 b = Some x -> (b < nb)%nat).
+  { intros b x H. rewrite <- LB. apply nth_error_Some. congruence. }
+  eapply (inv4_frame s s' t th _ I1 I4 Hext Hth Hthr).
+  - rewrite Ec, Ed, Eb, !app_length, !repeat_length. lia.
+  - intros b x Hb. rewrite HB in Hb. rewrite Ed. destruct (Nat.ltb_spec b nb).
+    + rewrite nth_error_app1 by lia. apply Hdt; assumption.
+    + destruct (Nat.ltb_spec (b - nb) k); [|discriminate]. inversion Hb; subst x.
+      rewrite nth_error_app2 by lia. rewrite LD. apply nth_error_repeat_lt; assumption.
+  - intro b. rewrite EL, (i4_live s I4 b), HB. destruct (Nat.ltb_spec b nb).
+    + symmetry. apply Hlv.
+    + split; intro H0.
+      * apply Hlv in H0. apply HBlt in H0. lia.
+      * destruct (b - nb <? k)%nat; discriminate.
+  - rewrite EL. apply (i4_nodup s I4).
+  - intros b u Hu. rewrite HB. destruct (Nat.ltb_spec b nb).
+    + apply Hou; assumption.
+    + split; intro H0.
+      * destruct (b - nb <? k)%nat; [inversion H0; congruence|discriminate].
+      * apply (Hou b u Hu) in H0. apply HBlt in H0. lia.
+  - intros bt0 nt0 bn0 e0 Hpc. cbn in Hpc. inversion Hpc; subst bt0 nt0 bn0 e0.
+    exists (seq nb k). split; [assumption|]. split; [apply seq_NoDup|]. split; [|split; [assumption|rewrite seq_length; assumption]].
+    intro b. rewrite in_seq, HB. destruct (Nat.ltb_spec b nb).
+    + split; [lia|]. intro H0. exfalso. eapply Hnt; eauto.
+    + destruct (Nat.ltb_spec (b - nb) k); split; intro H1; try reflexivity; try discriminate; lia.
+  - intros b Hb. cbn. discriminate.
+Qed.
+
+Lemma nodup_app : forall (a b : list nat), NoDup a -> NoDup b -> (forall x, In x a -> ~ In x b) -> NoDup (a ++ b).
+Proof.
+  induction a as [|x a IH]; intros b Ha Hb Hd; cbn; [assumption|]. inversion Ha; subst. constructor.
+  - rewrite in_app_iff. intros [H|H]; [contradiction|]. apply (Hd x); [left; reflexivity|assumption].
+  - apply IH; auto. intros y Hy. apply Hd. right. assumption.
+Qed.
+Lemma skipn_app_exact : forall (a b : list nat), skipn (length a) (a ++ b) = b.
+Proof. intros. rewrite skipn_app, skipn_all, Nat.sub_diag. reflexivity. Qed.
+
+Ltac same4 I1 I4 Hext Hth TH :=
+  apply (inv4_same _ _ _ _ TH I1 I4 Hext Hth); [reflexivity|reflexivity|reflexivity|reflexivity|reflexivity| | ].
+
+Lemma inv4_step : forall s t th s', Inv1 s -> Inv4 s -> nth_error (threads s) t = Some th -> Step s t th s' -> Inv4 s'.
+Proof.
+  intros s t th s' I1 I4 Hth HS.
+  destruct (inv1_step s t th s' I1 Hth HS) as (I1' & _ & Hext & _).
+  destruct (i1_cur s I1) as (tc & Hc & Hcst & _).
+  destruct HS.
+  - same4 I1 I4 Hext Hth (finish_op th (complete s o (cur s))); [rewrite H; reflexivity|reflexivity].
+  - match goal with |- Inv4 (upd_thread _ _ ?x) => same4 I1 I4 Hext Hth x end; [rewrite H; reflexivity|reflexivity].
+  - match goal with |- Inv4 (upd_thread _ _ ?x) => same4 I1 I4 Hext Hth x end; [rewrite H; reflexivity|reflexivity].
+  - match goal with |- Inv4 (upd_thread _ _ ?x) => same4 I1 I4 Hext Hth x end; [rewrite H; reflexivity|reflexivity].
+  - match goal with |- Inv4 (upd_thread _ _ ?x) => same4 I1 I4 Hext Hth x end; [rewrite H; reflexivity|reflexivity].
+  - match goal with |- Inv4 (upd_thread _ _ ?x) => same4 I1 I4 Hext Hth x end; [rewrite H; reflexivity|reflexivity].
+  - match goal with |- Inv4 (upd_thread _ _ ?x) => same4 I1 I4 Hext Hth x end; [rewrite H; reflexivity|reflexivity].
+  - match goal with |- Inv4 (upd_thread _ _ ?x) => same4 I1 I4 Hext Hth x end; [rewrite H; reflexivity|reflexivity].
+  - match goal with |- Inv4 (upd_thread _ _ ?x) => same4 I1 I4 Hext Hth x end; [rewrite H; reflexivity|reflexivity].
+  - match goal with |- Inv4 (upd_thread _ _ ?x) => same4 I1 I4 Hext Hth x end; [rewrite H; reflexivity|reflexivity].
+  - (* prepare, fresh table *)
+    set (L := length (tables s)). set (bn := tsize (table s (cur s))).
+    destruct (prepare_blocks s t th (cur s) L true e) as (Ec & Ed & Eb). fold bn in Ec, Ed, Eb.
+    set (s' := prepare s t th (cur s) L true e) in *.
+    assert (HL : T s' L = Some {| tblocks := fill_contents s (cur s) bn e; tst := TSpec t; tsup := None; tfreed := None; tfrees := 0 |}).
+    { unfold T, s'. rewrite prepare_tables. cbv zeta. rewrite nth_error_app2 by (unfold L; lia). unfold L. rewrite Nat.sub_diag. reflexivity. }
+    assert (HC : T s' (cur s) = Some tc).
+    { unfold T, s'. rewrite prepare_tables. cbv zeta. rewrite nth_error_app1; [exact Hc|]. apply nth_error_Some. unfold T in Hc. congruence. }
+    assert (Ebn : bn = tsize tc) by (unfold bn; rewrite (table_nth _ _ _ Hc); reflexivity).
+    apply (inv4_prepare_gen s s' t th (cur s) L bn e (bst s) (bdtor s) (created s bn e) I1 I4 Hext Hth).
+    + apply prepare_threads.
+    + assumption.
+    + assumption.
+    + assumption.
+    + apply (i4_len s I4).
+    + apply (i4_len s I4).
+    + apply (i4_dtor s I4).
+    + intro; reflexivity.
+    + intros; reflexivity.
+    + intros b Hb. destruct (i4_owner s I4 _ _ Hb) as (th0 & H0' & Hn). rewrite Hth in H0'. inversion H0'; subst th0. rewrite H in Hn. apply Hn. reflexivity.
+    + apply prepare_cur.
+    + rewrite (table_nth _ _ _ HL), (table_nth _ _ _ HC). cbn [tblocks]. rewrite Ebn. rewrite (fill_contents_ext s (cur s) tc e Hc).
+      unfold created. destruct (cv_gen_ranges (tsize tc) e) as (_ & -> & -> & _). reflexivity.
+    + rewrite (table_nth _ _ _ HC). assumption.
+    + unfold created. destruct (cv_gen_ranges bn e) as (_ & -> & -> & _). apply Z2Nat.id.
+      fold bn in H2. unfold table_qualified in H2. rewrite Z.geb_leb in H2. apply Z.leb_gt in H2. lia.
+  - (* CAS on _block_table won: the speculative blocks become live *)
+    destruct (i4_spec s I4 _ _ _ _ _ _ Hth H) as (spec & Hbl & Hnd & Hsp & Hbn & Hlen).
+    pose proof (i1_pc s I1 _ _ Hth) as P. rewrite H in P. cbn in P.
+    destruct P as (tb & tn & spec0 & Hb & Hn & Hpb & Hst & _).
+    subst bt. rewrite Hc in Hb. inversion Hb; subst tb; clear Hb.
+    rewrite (table_nth _ _ _ Hn), (table_nth _ _ _ Hc) in *.
+    rewrite Hbl, skipn_app_exact.
+    match goal with |- Inv4 ?x => set (s' := x) end.
+    assert (Hn' : T s' nt = Some (set_tst tn TCur)).
+    { unfold T, s'. cbn. rewrite !nth_error_set_nth. fold (T s nt). rewrite Hn, Nat.eqb_refl. reflexivity. }
+    assert (EL : live s' = live s ++ spec).
+    { unfold live at 1. change (cur s') with nt. rewrite (table_nth _ _ _ Hn'). cbn. unfold live. rewrite (table_nth _ _ _ Hc). assumption. }
+    assert (HB : forall b, nth_error (bst s') b = match nth_error (bst s) b with None => None | Some y => Some (if mem b spec then BLive else y) end)
+      by (intro; apply nth_error_mark_all).
+    destruct (i4_len s I4) as [L1 L2].
+    apply (inv4_frame s s' t th (goto th (RetLoad (cur s) nt)) I1 I4 Hext Hth).
+    + reflexivity.
+    + split; [exact L1|]. change (bst s') with (mark_all (bst s) spec BLive). rewrite length_mark_all. exact L2.
+    + intros b x Hx. rewrite HB in Hx. change (bdtor s') with (bdtor s).
+      destruct (nth_error (bst s) b) as [y|] eqn:Ey; [|discriminate]. rewrite (i4_dtor s I4 _ _ Ey). inversion Hx; subst x.
+      destruct (mem b spec) eqn:Em; [|reflexivity]. apply mem_In in Em. apply Hsp in Em. rewrite Ey in Em. inversion Em; subst y. reflexivity.
+    + intro b. rewrite EL, in_app_iff, HB, (i4_live s I4 b). destruct (nth_error (bst s) b) as [y|] eqn:Ey.
+      * destruct (mem b spec) eqn:Em.
+        -- split; [reflexivity|]. intros _. right. apply mem_In; assumption.
+        -- apply mem_false in Em. split; [intros [H1|H1]; [assumption|contradiction]|]. intro H1. left. assumption.
+      * split; [intros [H1|H1]; [discriminate|]|discriminate]. apply Hsp in H1. congruence.
+    + rewrite EL. apply nodup_app; [apply (i4_nodup s I4)|assumption|].
+      intros x Hx Hx'. apply (i4_live s I4) in Hx. apply Hsp in Hx'. congruence.
+    + intros b u Hu. rewrite HB. destruct (nth_error (bst s) b) as [y|] eqn:Ey; [|tauto]. destruct (mem b spec) eqn:Em; [|tauto].
+      apply mem_In in Em. apply Hsp in Em. rewrite Ey in Em. inversion Em; subst y. split; intro E; inversion E; congruence.
+    + intros bt0 nt0 bn0 e0 Hp. discriminate.
+    + intros b Hb. exfalso. rewrite HB in Hb. destruct (nth_error (bst s) b) as [y|] eqn:Ey; [|discriminate].
+      destruct (mem b spec) eqn:Em; [discriminate|]. inversion Hb; subst y. apply mem_false in Em. apply Em. apply Hsp. assumption.
+  - (* CAS lost, done: the speculative blocks die *)
+    destruct (i4_spec s I4 _ _ _ _ _ _ Hth H) as (spec & Hbl & Hnd & Hsp & Hbn & Hlen).
+    assert (Hdead : dead = spec).
+    { unfold dead. rewrite Hbl. apply slice_spec; [exact Hbn|exact Hlen]. }
+    subst s1 s2. clearbody dead. subst dead.
+    match goal with |- Inv4 ?x => set (s' := x) in * end.
+    destruct (kill_facts s t spec I4 Hnd Hsp) as (K1 & K2 & K3 & K4 & K5 & K6).
+    assert (EL : live s' = live s) by (eapply live_same; eauto; reflexivity).
+    eapply (inv4_frame s s' t th _ I1 I4 Hext Hth).
+    + reflexivity.
+    + split; [exact K1|exact K2].
+    + exact K3.
+    + intro b. rewrite EL, (i4_live s I4 b). symmetry. apply K4.
+    + rewrite EL. apply (i4_nodup s I4).
+    + exact K5.
+    + intros bt0 nt0 bn0 e0 Hp. discriminate.
+    + intros b Hb. exfalso. eapply K6; eauto.
+  - (* CAS lost, retry: the speculative blocks die, new ones are created *)
+    destruct (i4_spec s I4 _ _ _ _ _ _ Hth H) as (spec & Hbl & Hnd & Hsp & Hbn & Hlen).
+    assert (Hdead : dead = spec).
+    { unfold dead. rewrite Hbl. apply slice_spec; [exact Hbn|exact Hlen]. }
+    pose proof (i1_pc s I1 _ _ Hth) as P. rewrite H in P. cbn in P.
+    destruct P as (tb & tn & spec0 & Hb & Hn & Hpb & Hst & _).
+    assert (Hne : nt <> cur s) by (intro E; subst nt; congruence).
+    set (bn' := tsize (table s (cur s))).
+    destruct (prepare_blocks s1 t th (cur s) nt false e) as (Ec & Ed & Eb).
+    change (table s1 (cur s)) with (table s (cur s)) in Ec, Ed, Eb. fold bn' in Ec, Ed, Eb.
+    change (bctor s1) with (bctor s) in Ec. change (bdtor s1) with (bump_all (bdtor s) dead) in Ed.
+    change (bst s1) with (mark_all (bst s) dead BDead) in Eb. rewrite Hdead in Ed, Eb.
+    set (s' := prepare s1 t th (cur s) nt false e) in *.
+    destruct (kill_facts s t spec I4 Hnd Hsp) as (K1 & K2 & K3 & K4 & K5 & K6).
+    assert (Ebn : bn' = tsize tc) by (unfold bn'; rewrite (table_nth _ _ _ Hc); reflexivity).
+    assert (HN : T s' nt = Some (set_blocks tn (fill_contents s1 (cur s) bn' e))).
+    { unfold T, s'. rewrite prepare_tables. cbv zeta. rewrite nth_error_set_nth. change (nth_error (tables s1) nt) with (T s nt). rewrite Hn, Nat.eqb_refl.
+      change (table s1) with (table s). rewrite (table_nth _ _ _ Hn). reflexivity. }
+    assert (HC : T s' (cur s) = Some tc).
+    { unfold T, s'. rewrite prepare_tables. cbv zeta. rewrite nth_error_set_nth. change (nth_error (tables s1) (cur s)) with (T s (cur s)). rewrite Hc.
+      destruct (Nat.eqb_spec nt (cur s)); [contradiction|reflexivity]. }
+    apply (inv4_prepare_gen s s' t th (cur s) nt bn' e (mark_all (bst s) spec BDead) (bump_all (bdtor s) spec) (created s1 bn' e) I1 I4 Hext Hth).
+    + unfold s'. rewrite prepare_threads. reflexivity.
+    + exact Ec.
+    + exact Ed.
+    + exact Eb.
+    + exact K1.
+    + exact K2.
+    + exact K3.
+    + exact K4.
+    + exact K5.
+    + exact K6.
+    + unfold s'. rewrite prepare_cur. reflexivity.
+    + rewrite (table_nth _ _ _ HN), (table_nth _ _ _ HC). cbn [tblocks set_blocks]. rewrite Ebn.
+      rewrite (fill_contents_ext s1 (cur s) tc e Hc). change (bctor s1) with (bctor s).
+      unfold created. destruct (cv_gen_ranges (tsize tc) e) as (_ & -> & -> & _). reflexivity.
+    + rewrite (table_nth _ _ _ HC). assumption.
+    + unfold created. destruct (cv_gen_ranges bn' e) as (_ & -> & -> & _). apply Z2Nat.id.
+      fold bn' in H1. unfold loser_done in H1. rewrite Z.geb_leb in H1. apply Z.leb_gt in H1. lia.
+  - match goal with |- Inv4 (upd_thread _ _ ?x) => same4 I1 I4 Hext Hth x end; [rewrite H; reflexivity|].
+    cbn. destruct (expire _ _); reflexivity.
+  - subst s1 s2. match goal with |- Inv4 (upd_thread _ _ ?x) => same4 I1 I4 Hext Hth x end; [rewrite H; reflexivity|reflexivity].
+  - match goal with |- Inv4 (upd_thread _ _ ?x) => same4 I1 I4 Hext Hth x end; [rewrite H; reflexivity|reflexivity].
+  - subst s1 s2. match goal with |- Inv4 (upd_thread _ _ ?x) => same4 I1 I4 Hext Hth x end; [rewrite H; reflexivity|reflexivity].
+  - match goal with |- Inv4 (upd_thread _ _ ?x) => same4 I1 I4 Hext Hth x end; [rewrite H; reflexivity|reflexivity].
+  - subst s1 s2. match goal with |- Inv4 (upd_thread _ _ ?x) => same4 I1 I4 Hext Hth x end; [rewrite H; reflexivity|reflexivity].
+  - match goal with |- Inv4 (upd_thread _ _ ?x) => same4 I1 I4 Hext Hth x end; [rewrite H; reflexivity|reflexivity].
+Qed.
+
+(* ======================================================================================== *)
+(* Invariant 5: life cycle of the tables: who owns what, how often each table was deleted    *)
+(* ======================================================================================== *)
+Definition frees_of (x : tstat) : nat := match x with TFreed | TDead => 1%nat | _ => 0%nat end.
+Definition owner_ok (s : st) (k : nat) (x : tstat) : Prop :=
+  match x with
+  | TListed => In k (hnodes s)
+  | TSpec u => exists th, nth_error (threads s) u = Some th /\ slow_nt (tpc th) = Some k
+  | TRetiring u => exists th, nth_error (threads s) u = Some th /\ ret_old (tpc th) = Some k
+  | _ => True
+  end.
+Definition tab_ok (s : st) (k : nat) (ti : tinfo) : Prop :=
+  (k <> 0%nat -> tfrees ti = frees_of (tst ti)) /\ owner_ok s k (tst ti).
+
+Record Inv5 (s : st) : Prop := {
+  i5_nodup : NoDup (hnodes s);
+  i5_tab : forall k ti, T s k = Some ti -> tab_ok s k ti
+}.
+
+Lemma inv5_init : forall b t0 progs, Inv5 (init b t0 progs).
+Proof.
+  intros. constructor; cbn; [constructor|]. intros [|[|k]] ti H; try discriminate. inversion H; subst. split; [intro N; congruence|exact Logic.I].
+Qed.
+
+Lemma free_tables_exact : forall ks tb c m, NoDup ks ->
+  nth_error (free_tables tb ks c) m =
+  match nth_error tb m with
+  | None => None
+  | Some y => Some (if mem m ks then (if Nat.eqb m 0 then set_tst y TFreed else free_tinfo y c) else y)
+  end.
+Proof.
+  induction ks as [|k ks IH]; intros tb c m Hnd.
+  - cbn. destruct (nth_error tb m); reflexivity.
+  - inversion Hnd; subst. cbn [free_tables fold_left]. unfold free_tables in IH. rewrite IH by assumption.
+    rewrite nth_error_free_table. destruct (nth_error tb m) as [y|]; [|reflexivity].
+    unfold mem. cbn [existsb]. fold (mem m ks). rewrite (Nat.eqb_sym m k).
+    destruct (Nat.eqb_spec k m) as [->|N]; cbn [orb]; [|reflexivity].
+    assert (E : mem m ks = false) by (apply mem_false; assumption). rewrite E. reflexivity.
+Qed.
+
+Lemma thread_at : forall s s' t th th', nth_error (threads s) t = Some th -> threads s' = set_nth t th' (threads s) ->
+  nth_error (threads s') t = Some th'.
+Proof. intros. rewrite H0, nth_error_set_nth, H, Nat.eqb_refl. reflexivity. Qed.
+Lemma thread_other : forall s s' t u th' thu, u <> t -> nth_error (threads s) u = Some thu -> threads s' = set_nth t th' (threads s) ->
+  nth_error (threads s') u = Some thu.
+Proof. intros. rewrite H1, nth_error_set_nth, H0. destruct (Nat.eqb_spec t u); [congruence|reflexivity]. Qed.
+
+Lemma inv5_frame : forall s s' t th th',
+  Inv5 s -> nth_error (threads s) t = Some th -> threads s' = set_nth t th' (threads s) ->
+  NoDup (hnodes s') ->
+  (forall k ti', T s' k = Some ti' ->
+     (T s k = Some ti' /\ (forall u, tst ti' = TSpec u \/ tst ti' = TRetiring u -> u <> t) /\ (tst ti' = TListed -> In k (hnodes s')))
+     \/ tab_ok s' k ti') ->
+  Inv5 s'.
+Proof.
+  intros s s' t th th' I5 Hth Hthr Hnd Htab. constructor; [assumption|].
+  intros k ti' Hk. destruct (Htab _ _ Hk) as [(Hk0 & Hown & Hl)|]; [|assumption].
+  destruct (i5_tab s I5 _ _ Hk0) as [Hf Ho]. split; [assumption|].
+  unfold owner_ok in *. destruct (tst ti') as [u| |u| | |] eqn:Est; auto.
+  - destruct Ho as (thu & Hu & Hs). exists thu. split; [|assumption]. apply (thread_other s s' t u th' thu); [apply (Hown u); first [left; exact Est|left; reflexivity]|exact Hu|exact Hthr].
+  - destruct Ho as (thu & Hu & Hs). exists thu. split; [|assumption]. apply (thread_other s s' t u th' thu); [apply (Hown u); first [right; exact Est|right; reflexivity]|exact Hu|exact Hthr].
+Qed.
+
+Lemma inv5_local : forall s s' t th th',
+  Inv5 s -> nth_error (threads s) t = Some th -> threads s' = set_nth t th' (threads s) ->
+  tables s' = tables s -> hnodes s' = hnodes s ->
+  slow_nt (tpc th') = slow_nt (tpc th) -> ret_old (tpc th') = ret_old (tpc th) -> Inv5 s'.
+Proof.
+  intros s s' t th th' I5 Hth Hthr Et Eh Es Er. constructor; [rewrite Eh; apply (i5_nodup s I5)|].
+  intros k ti Hk. unfold T in Hk. rewrite Et in Hk. destruct (i5_tab s I5 _ _ Hk) as [Hf Ho]. split; [assumption|].
+  unfold owner_ok in *. rewrite Eh. destruct (tst ti) as [u| |u| | |]; auto.
+  - destruct Ho as (thu & Hu & Hs). destruct (Nat.eq_dec u t) as [->|N].
+    + exists th'. split; [eapply thread_at; eauto|]. rewrite Hth in Hu. inversion Hu; subst. congruence.
+    + exists thu. split; [eapply thread_other; eauto|assumption].
+  - destruct Ho as (thu & Hu & Hs). destruct (Nat.eq_dec u t) as [->|N].
+    + exists th'. split; [eapply thread_at; eauto|]. rewrite Hth in Hu. inversion Hu; subst. congruence.
+    + exists thu. split; [eapply thread_other; eauto|assumption].
+Qed.
+
+(* a table that thread t does not own: its owner facts in s contradict t's pc *)
+Lemma not_mine : forall s t th k ti, Inv5 s -> nth_error (threads s) t = Some th -> T s k = Some ti ->
+  (slow_nt (tpc th) <> Some k) -> (ret_old (tpc th) <> Some k) ->
+  forall u, tst ti = TSpec u \/ tst ti = TRetiring u -> u <> t.
+Proof.
+  intros s t th k ti I5 Hth Hk Hs Hr u Hu E. subst u. destruct (i5_tab s I5 _ _ Hk) as [_ Ho]. unfold owner_ok in Ho.
+  destruct Hu as [Hu|Hu]; rewrite Hu in Ho; destruct Ho as (th0 & H0 & H1); rewrite Hth in H0; inversion H0; subst; contradiction.
+Qed.
+
+Ltac loc5 I5 Hth TH :=
+  apply (inv5_local _ _ _ _ TH I5 Hth); [reflexivity|reflexivity|reflexivity| | ].
+
+Lemma inv5_step : forall s t th s', Inv1 s -> Inv5 s -> nth_error (threads s) t = Some th -> Step s t th s' -> Inv5 s'.
+Proof.
+  intros s t th s' I1 I5 Hth HS.
+  destruct (i1_cur s I1) as (tc & Hc & Hcst & _).
+  pose proof (i1_pc s I1 _ _ Hth) as Hpc0.
+  destruct HS.
+  - loc5 I5 Hth (finish_op th (complete s o (cur s))); rewrite H; reflexivity.
+  - match goal with |- Inv5 (upd_thread _ _ ?x) => loc5 I5 Hth x end; rewrite H; reflexivity.
+  - match goal with |- Inv5 (upd_thread _ _ ?x) => loc5 I5 Hth x end; rewrite H; reflexivity.
+  - match goal with |- Inv5 (upd_thread _ _ ?x) => loc5 I5 Hth x end; rewrite H; reflexivity.
+  - match goal with |- Inv5 (upd_thread _ _ ?x) => loc5 I5 Hth x end; rewrite H; reflexivity.
+  - match goal with |- Inv5 (upd_thread _ _ ?x) => loc5 I5 Hth x end; rewrite H; reflexivity.
+  - match goal with |- Inv5 (upd_thread _ _ ?x) => loc5 I5 Hth x end; rewrite H; reflexivity.
+  - match goal with |- Inv5 (upd_thread _ _ ?x) => loc5 I5 Hth x end; rewrite H; reflexivity.
+  - match goal with |- Inv5 (upd_thread _ _ ?x) => loc5 I5 Hth x end; rewrite H; reflexivity.
+  - match goal with |- Inv5 (upd_thread _ _ ?x) => loc5 I5 Hth x end; rewrite H; reflexivity.
+  - (* prepare, fresh table *)
+    set (L := length (tables s)). set (s' := prepare s t th (cur s) L true e).
+    assert (Hthr : threads s' = set_nth t (goto th (SlowCas (cur s) L (tsize (table s (cur s))) e)) (threads s)) by apply prepare_threads.
+    apply (inv5_frame s s' t th _ I5 Hth Hthr).
+    + unfold s'. rewrite prepare_hnodes. apply (i5_nodup s I5).
+    + intros k y Hk. unfold T, s' in Hk. rewrite prepare_tables in Hk. cbv zeta in Hk.
+      destruct (Nat.lt_ge_cases k L) as [Hlt|Hge].
+      * rewrite nth_error_app1 in Hk by assumption. left. split; [exact Hk|]. split.
+        -- apply (not_mine s t th k y I5 Hth Hk); rewrite H; discriminate.
+        -- intro Hl. unfold s'. rewrite prepare_hnodes. destruct (i5_tab s I5 _ _ Hk) as [_ Ho]. unfold owner_ok in Ho. rewrite Hl in Ho. exact Ho.
+      * rewrite nth_error_app2 in Hk by assumption. fold L in Hk. destruct (k - L)%nat eqn:Ek; [|destruct n; cbn in Hk; discriminate].
+        cbn in Hk. inversion Hk; subst y. right. split; [reflexivity|]. change (exists th0, nth_error (threads s') t = Some th0 /\ slow_nt (tpc th0) = Some k).
+        eexists. split; [exact (thread_at _ _ _ _ _ Hth Hthr)|]. cbn. f_equal. lia.
+  - (* table CAS won *)
+    rewrite H in Hpc0. cbn in Hpc0. destruct Hpc0 as (tb & tn & spec & Hb & Hn & Hpb & Hst & _).
+    subst bt. rewrite Hc in Hb. inversion Hb; subst tb; clear Hb.
+    rewrite (table_nth _ _ _ Hn), (table_nth _ _ _ Hc).
+    match goal with |- Inv5 ?x => set (s' := x) end.
+    assert (Hne : nt <> cur s) by (intro E; subst nt; congruence).
+    apply (inv5_frame s s' t th (goto th (RetLoad (cur s) nt)) I5 Hth); [reflexivity|apply (i5_nodup s I5)|].
+    intros k y Hk. unfold T, s' in Hk. cbn in Hk. rewrite !nth_error_set_nth in Hk. fold (T s k) in Hk.
+    destruct (T s k) as [y0|] eqn:Ek; [|discriminate]. inversion Hk; subst y; clear Hk.
+    destruct (Nat.eqb_spec nt k) as [<-|N1].
+    + right. rewrite Hn in Ek. inversion Ek; subst y0. destruct (i5_tab s I5 _ _ Hn) as [Hf _]. split; [|exact Logic.I].
+      intro Nz. cbn. rewrite (Hf Nz), Hst. reflexivity.
+    + destruct (Nat.eqb_spec (cur s) k) as [<-|N2].
+      * right. rewrite Hc in Ek. inversion Ek; subst y0. destruct (i5_tab s I5 _ _ Hc) as [Hf _]. split.
+        -- intro Nz. cbn. rewrite (Hf Nz), Hcst. reflexivity.
+        -- cbn. eexists. split; [eapply (thread_at s s'); eauto; reflexivity|reflexivity].
+      * left. split; [reflexivity|]. split.
+        -- apply (not_mine s t th k y0 I5 Hth Ek); rewrite H; cbn; congruence.
+        -- intro Hl. destruct (i5_tab s I5 _ _ Ek) as [_ Ho]. unfold owner_ok in Ho. rewrite Hl in Ho. exact Ho.
+  - (* table CAS lost, done *)
+    rewrite H in Hpc0. cbn in Hpc0. destruct Hpc0 as (tb & tn & spec & Hb & Hn & Hpb & Hst & _ & _ & _ & _ & Hnz).
+    subst s1 s2. cbn [cur tables with_mem].
+    match goal with |- Inv5 (upd_thread ?x _ ?y) => set (s2 := x); set (th' := y) end.
+    apply (inv5_frame s (upd_thread s2 t th') t th th' I5 Hth); [reflexivity|apply (i5_nodup s I5)|].
+    intros k y Hk. unfold T in Hk. cbn in Hk. rewrite nth_error_free_table in Hk. fold (T s k) in Hk.
+    destruct (T s k) as [y0|] eqn:Ek; [|discriminate]. inversion Hk; subst y; clear Hk.
+    destruct (Nat.eqb_spec nt k) as [<-|N1].
+    + right. rewrite Hn in Ek. inversion Ek; subst y0. destruct (Nat.eqb_spec nt 0); [contradiction|].
+      destruct (i5_tab s I5 _ _ Hn) as [Hf _]. split; [|cbn; rewrite Hst; exact Logic.I].
+      intro Nz. cbn. rewrite (Hf Nz), Hst. reflexivity.
+    + left. split; [reflexivity|]. split.
+      * apply (not_mine s t th k y0 I5 Hth Ek); rewrite H; cbn; congruence.
+      * intro Hl. destruct (i5_tab s I5 _ _ Ek) as [_ Ho]. unfold owner_ok in Ho. rewrite Hl in Ho. exact Ho.
+  - (* table CAS lost, retry *)
+    rewrite H in Hpc0. cbn in Hpc0. destruct Hpc0 as (tb & tn & spec & Hb & Hn & Hpb & Hst & _).
+    set (s' := prepare s1 t th (cur s) nt false e).
+    assert (Hthr : threads s' = set_nth t (goto th (SlowCas (cur s) nt (tsize (table s (cur s))) e)) (threads s))
+      by (unfold s'; rewrite prepare_threads; reflexivity).
+    apply (inv5_frame s s' t th _ I5 Hth Hthr).
+    + unfold s'. rewrite prepare_hnodes. apply (i5_nodup s I5).
+    + intros k y Hk. unfold T, s' in Hk. rewrite prepare_tables in Hk. cbv zeta in Hk. rewrite nth_error_set_nth in Hk.
+      change (nth_error (tables s1) k) with (T s k) in Hk.
+      destruct (T s k) as [y0|] eqn:Ek; [|discriminate]. inversion Hk; subst y; clear Hk.
+      destruct (Nat.eqb_spec nt k) as [<-|N1].
+      * right. change (table s1 nt) with (table s nt). rewrite (table_nth _ _ _ Hn).
+        destruct (i5_tab s I5 _ _ Hn) as [Hf _]. split; [exact Hf|]. cbn. rewrite Hst. eexists. split; [eapply thread_at; eauto|reflexivity].
+      * left. split; [reflexivity|]. split.
+        -- apply (not_mine s t th k y0 I5 Hth Ek); rewrite H; cbn; congruence.
+        -- intro Hl. unfold s'. rewrite prepare_hnodes. destruct (i5_tab s I5 _ _ Ek) as [_ Ho]. unfold owner_ok in Ho. rewrite Hl in Ho. exact Ho.
+  - match goal with |- Inv5 (upd_thread _ _ ?x) => loc5 I5 Hth x end; rewrite H; cbn; destruct (expire _ _); reflexivity.
+  - (* retire: expired list replaced *)
+    rewrite H in Hpc0. cbn in Hpc0. destruct Hpc0 as (to & tn & Ho & Host & _).
+    subst s1 s2. cbn [cur tables with_mem with_head]. rewrite (table_nth _ _ _ Ho).
+    match goal with |- Inv5 (upd_thread ?x _ ?y) => set (s2 := x); set (th' := y) end.
+    assert (Hndh : NoDup hn) by (rewrite <- H1; apply (i5_nodup s I5)).
+    assert (Hold : ~ In old hn).
+    { intro Hi. rewrite <- H1 in Hi. destruct (i1_list s I1 _ Hi) as (y & Hy & Hyst). congruence. }
+    apply (inv5_frame s (upd_thread s2 t th') t th th' I5 Hth); [reflexivity|cbn; repeat constructor; intros []|].
+    intros k y Hk. unfold T in Hk. cbn in Hk. rewrite (free_tables_exact hn _ (clock s) k Hndh), nth_error_set_nth in Hk. fold (T s k) in Hk.
+    destruct (T s k) as [y0|] eqn:Ek; [|discriminate]. inversion Hk; subst y; clear Hk.
+    destruct (mem k hn) eqn:Em.
+    + apply mem_In in Em. right. assert (N : old <> k) by (intro E; subst; contradiction).
+      destruct (Nat.eqb_spec old k); [contradiction|].
+      assert (Hi : In k (hnodes s)) by congruence. destruct (i1_list s I1 _ Hi) as (y1 & Hy1 & Hl). rewrite Ek in Hy1. inversion Hy1; subst y1.
+      destruct (i5_tab s I5 _ _ Ek) as [Hf _].
+      destruct (Nat.eqb_spec k 0) as [->|Nz]; (split; [|cbn; try rewrite Hl; exact Logic.I]).
+      * intro Nz. congruence.
+      * intros _. cbn. rewrite (Hf Nz), Hl. reflexivity.
+    + apply mem_false in Em. destruct (Nat.eqb_spec old k) as [<-|N].
+      * right. rewrite Ho in Ek. inversion Ek; subst y0. destruct (i5_tab s I5 _ _ Ho) as [Hf _]. split.
+        -- intro Nz. cbn. rewrite (Hf Nz), Host. reflexivity.
+        -- cbn. left. reflexivity.
+      * left. split; [reflexivity|]. split.
+        -- apply (not_mine s t th k y0 I5 Hth Ek); rewrite H; cbn; congruence.
+        -- intro Hl. exfalso. destruct (i5_tab s I5 _ _ Ek) as [_ Ho']. unfold owner_ok in Ho'. rewrite Hl in Ho'. apply Em. congruence.
+  - match goal with |- Inv5 (upd_thread _ _ ?x) => loc5 I5 Hth x end; rewrite H; reflexivity.
+  - (* retire: push won *)
+    rewrite H in Hpc0. cbn in Hpc0. destruct Hpc0 as (to & tn & Ho & Host & _).
+    subst s1 s2. cbn [cur tables with_mem with_head]. rewrite (table_nth _ _ _ Ho).
+    match goal with |- Inv5 (upd_thread ?x _ ?y) => set (s2 := x); set (th' := y) end.
+    assert (Hold : ~ In old hn).
+    { intro Hi. rewrite <- H1 in Hi. destruct (i1_list s I1 _ Hi) as (y & Hy & Hyst). congruence. }
+    apply (inv5_frame s (upd_thread s2 t th') t th th' I5 Hth); [reflexivity| |].
+    + cbn. constructor; [assumption|]. rewrite <- H1. apply (i5_nodup s I5).
+    + intros k y Hk. unfold T in Hk. cbn in Hk. rewrite nth_error_set_nth in Hk. fold (T s k) in Hk.
+      destruct (T s k) as [y0|] eqn:Ek; [|discriminate]. inversion Hk; subst y; clear Hk.
+      destruct (Nat.eqb_spec old k) as [<-|N].
+      * right. rewrite Ho in Ek. inversion Ek; subst y0. destruct (i5_tab s I5 _ _ Ho) as [Hf _]. split.
+        -- intro Nz. cbn. rewrite (Hf Nz), Host. reflexivity.
+        -- cbn. left. reflexivity.
+      * left. split; [reflexivity|]. split.
+        -- apply (not_mine s t th k y0 I5 Hth Ek); rewrite H; cbn; congruence.
+        -- intro Hl. cbn. right. destruct (i5_tab s I5 _ _ Ek) as [_ Ho']. unfold owner_ok in Ho'. rewrite Hl in Ho'. congruence.
+  - match goal with |- Inv5 (upd_thread _ _ ?x) => loc5 I5 Hth x end; rewrite H; reflexivity.
+  - (* gc won *)
+    subst s1 s2. cbn [cur tables with_mem with_head].
+    match goal with |- Inv5 (upd_thread ?x _ ?y) => set (s2 := x); set (th' := y) end.
+    assert (Hndh : NoDup hn) by (rewrite <- H1; apply (i5_nodup s I5)).
+    apply (inv5_frame s (upd_thread s2 t th') t th th' I5 Hth); [reflexivity|cbn; constructor|].
+    intros k y Hk. unfold T in Hk. cbn in Hk. rewrite (free_tables_exact hn _ (clock s) k Hndh) in Hk. fold (T s k) in Hk.
+    destruct (T s k) as [y0|] eqn:Ek; [|discriminate]. inversion Hk; subst y; clear Hk.
+    destruct (mem k hn) eqn:Em.
+    + apply mem_In in Em. right.
+      assert (Hi : In k (hnodes s)) by congruence. destruct (i1_list s I1 _ Hi) as (y1 & Hy1 & Hl). rewrite Ek in Hy1. inversion Hy1; subst y1.
+      destruct (i5_tab s I5 _ _ Ek) as [Hf _].
+      destruct (Nat.eqb_spec k 0) as [->|Nz]; (split; [|cbn; try rewrite Hl; exact Logic.I]).
+      * intro Nz. congruence.
+      * intros _. cbn. rewrite (Hf Nz), Hl. reflexivity.
+    + apply mem_false in Em. left. split; [reflexivity|]. split.
+      * apply (not_mine s t th k y0 I5 Hth Ek); rewrite H; cbn; congruence.
+      * intro Hl. exfalso. destruct (i5_tab s I5 _ _ Ek) as [_ Ho']. unfold owner_ok in Ho'. rewrite Hl in Ho'. apply Em. congruence.
+  - match goal with |- Inv5 (upd_thread _ _ ?x) => loc5 I5 Hth x end; rewrite H; reflexivity.
+Qed.
+
+Lemma cv_reach_inv45 : forall b t0 progs s, Reach b t0 progs s -> Inv1 s /\ Inv4 s /\ Inv5 s.
+Proof.
+  intros b t0 progs s HR. unfold Reach in HR.
+  apply (inv_reachable st step (fun s => Inv1 s /\ Inv4 s /\ Inv5 s) (init b t0 progs)); auto.
+  - split; [apply inv1_init|split; [apply inv4_init|apply inv5_init]].
+  - intros s0 t s1 (I1 & I4 & I5) Hs. destruct (step_Step _ _ _ Hs) as (th & Hth & HS).
+    split; [apply (inv1_step s0 t th s1 I1 Hth HS)|split; [apply (inv4_step s0 t th s1 I1 I4 Hth HS)|apply (inv5_step s0 t th s1 I1 I5 Hth HS)]].
+Qed.
+
+(* while the vector is alive: no block is destroyed twice, and no block visible through the published table is
+   destroyed at all; a block with destructor count 0 is either published or still owned by exactly one thread that
+   is inside the slow path (and will publish or destroy it) *)
+Lemma cv_destroyed_at_most_once : forall b t0 progs s blk c, Reach b t0 progs s -> nth_error (bdtor s) blk = Some c ->
+  (c <= 1)%nat /\ (In blk (live s) -> c = 0%nat) /\
+  (c = 0%nat -> In blk (live s) \/ exists t th, nth_error (threads s) t = Some th /\ slow_nt (tpc th) <> None /\
+                                         nth_error (bst s) blk = Some (BSpec t)).
+Proof.
+  intros b t0 progs s blk c HR Hc. destruct (cv_reach_inv45 _ _ _ _ HR) as (I1 & I4 & _).
+  destruct (i4_len s I4) as [L1 L2].
+  assert (Hlt : (blk < length (bst s))%nat) by (rewrite L2, <- L1; apply nth_error_Some; congruence).
+  destruct (nth_error (bst s) blk) as [x|] eqn:Ex; [|apply nth_error_None in Ex; lia].
+  pose proof (i4_dtor s I4 _ _ Ex) as Hd. rewrite Hc in Hd. inversion Hd; subst c. split; [destruct x; cbn; lia|]. split.
+  - intro Hl. apply (i4_live s I4) in Hl. rewrite Ex in Hl. inversion Hl; subst. reflexivity.
+  - intro H0. destruct x as [u| |]; cbn in H0; try discriminate.
+    + right. destruct (i4_owner s I4 _ _ Ex) as (th & Hth & Hs). exists u, th. auto.
+    + left. apply (i4_live s I4). assumption.
+Qed.
+
+Lemma all_done_idle : forall s, all_done s = true -> forall t th, nth_error (threads s) t = Some th -> tpc th = Idle.
+Proof.
+  intros s H t th Hth. unfold all_done in H. rewrite forallb_forall in H. specialize (H th (nth_error_In _ _ Hth)).
+  unfold thread_done in H. destruct (tpc th); try discriminate. reflexivity.
+Qed.
+
+(* when the vector dies (all calls returned): every block ever created has been constructed exactly once and destroyed
+   exactly once (by the loser that created it or by ~ConcurrentVector), every heap block table deleted exactly once *)
+Lemma cv_death : forall b t0 progs s, Reach b t0 progs s -> all_done s = true ->
+  Forall (fun c => c = 1%nat) (bctor (destroy s)) /\ Forall (fun c => c = 1%nat) (bdtor (destroy s)) /\
+  length (bdtor (destroy s)) = length (bctor (destroy s)) /\
+  forall k ti, nth_error (tables (destroy s)) k = Some ti -> k <> 0%nat -> tfrees ti = 1%nat.
+Proof.
+  intros b t0 progs s HR Hdone. destruct (cv_reach_inv45 _ _ _ _ HR) as (I1 & I4 & I5).
+  pose proof (all_done_idle s Hdone) as Hidle.
+  destruct (i1_cur s I1) as (tc & Hc & Hcst & _). destruct (i4_len s I4) as [L1 L2].
+  assert (Hblocks : firstn (Z.to_nat (destroy_loop_hi (tsize (table s (cur s))))) (tblocks (table s (cur s))) = live s).
+  { unfold live. rewrite cv_destroy_loop. unfold tsize. rewrite Nat2Z.id. apply firstn_all. }
+  split; [apply (cv_constructed_once _ _ _ _ HR)|]. split; [|split].
+  - unfold destroy. cbn [bdtor with_head with_mem]. rewrite Hblocks. apply Forall_forall. intros x Hx.
+    apply In_nth_error in Hx. destruct Hx as (blk & Hx). rewrite (nth_error_bump_all _ _ _ (i4_nodup s I4)) in Hx.
+    destruct (nth_error (bdtor s) blk) as [c|] eqn:Ec; [|discriminate]. inversion Hx; subst x; clear Hx.
+    assert (Hlt : (blk < length (bst s))%nat) by (rewrite L2, <- L1; apply nth_error_Some; congruence).
+    destruct (nth_error (bst s) blk) as [y|] eqn:Ey; [|apply nth_error_None in Ey; lia].
+    pose proof (i4_dtor s I4 _ _ Ey) as Hd. rewrite Ec in Hd. inversion Hd; subst c.
+    destruct y as [u| |].
+    + exfalso. destruct (i4_owner s I4 _ _ Ey) as (th & Hth & Hs). rewrite (Hidle _ _ Hth) in Hs. apply Hs. reflexivity.
+    + assert (E : mem blk (live s) = true) by (apply mem_In; apply (i4_live s I4); assumption). rewrite E. reflexivity.
+    + assert (E : mem blk (live s) = false).
+      { apply mem_false. intro Hl. apply (i4_live s I4) in Hl. congruence. }
+      rewrite E. reflexivity.
+  - unfold destroy. cbn [bdtor bctor with_head with_mem]. rewrite length_bump_all. assumption.
+  - intros k ti' Hk Nz. unfold destroy in Hk. cbn [tables with_head with_mem] in Hk.
+    rewrite (free_tables_exact _ _ _ _ (i5_nodup s I5)), nth_error_free_table in Hk. fold (T s k) in Hk.
+    destruct (T s k) as [ti|] eqn:Ek; [|discriminate]. inversion Hk; subst ti'; clear Hk.
+    destruct (Nat.eqb_spec k 0) as [|_]; [contradiction|].
+    destruct (i5_tab s I5 _ _ Ek) as [Hf Ho]. specialize (Hf Nz). unfold owner_ok in Ho.
+    assert (Hcn : ~ In (cur s) (hnodes s)).
+    { intro Hi. destruct (i1_list s I1 _ Hi) as (y & Hy & Hl). congruence. }
+    destruct (tst ti) as [u| |u| | |] eqn:Est.
+    + exfalso. destruct Ho as (th & Hth & Hs). rewrite (Hidle _ _ Hth) in Hs. discriminate.
+    + assert (k = cur s) by (eapply (i1_uniq s I1); eauto). subst k. rewrite Nat.eqb_refl.
+      assert (E : mem (cur s) (hnodes s) = false) by (apply mem_false; assumption). rewrite E.
+      destruct (Nat.eqb_spec (cur s) 0); [contradiction|]. cbn. rewrite Hf. reflexivity.
+    + exfalso. destruct Ho as (th & Hth & Hs). rewrite (Hidle _ _ Hth) in Hs. discriminate.
+    + assert (E : mem k (hnodes s) = true) by (apply mem_In; assumption). rewrite E.
+      destruct (Nat.eqb_spec (cur s) k) as [E'|_]; [subst k; contradiction|]. cbn. rewrite Hf. reflexivity.
+    + assert (E : mem k (hnodes s) = false).
+      { apply mem_false. intro Hi. destruct (i1_list s I1 _ Hi) as (y & Hy & Hl). rewrite Ek in Hy. inversion Hy; subst. congruence. }
+      rewrite E. destruct (Nat.eqb_spec (cur s) k) as [E'|_]; [subst k; rewrite Hc in Ek; inversion Ek; subst; congruence|]. assumption.
+    + assert (E : mem k (hnodes s) = false).
+      { apply mem_false. intro Hi. destruct (i1_list s I1 _ Hi) as (y & Hy & Hl). rewrite Ek in Hy. inversion Hy; subst. congruence. }
+      rewrite E. destruct (Nat.eqb_spec (cur s) k) as [E'|_]; [subst k; rewrite Hc in Ek; inversion Ek; subst; congruence|]. assumption.
+Qed.
+
+(* tables are deleted at most once while the vector is alive, and only tables that are off the retire list or were
+   never published *)
+Lemma cv_table_frees : forall b t0 progs s k ti, Reach b t0 progs s -> nth_error (tables s) k = Some ti -> k <> 0%nat ->
+  (tfrees ti <= 1)%nat /\ (tfrees ti = 1%nat <-> (tst ti = TFreed \/ tst ti = TDead)).
+Proof.
+  intros b t0 progs s k ti HR Hk Nz. destruct (cv_reach_inv45 _ _ _ _ HR) as (_ & _ & I5).
+  destruct (i5_tab s I5 _ _ Hk) as [Hf _]. rewrite (Hf Nz). destruct (tst ti); cbn; split; try lia; split; intro H;
+    try discriminate; try (destruct H; discriminate); auto.
+Qed.
+
+(* non-vacuity of cv_death: a finished run with a loser, a retired table and 3 live blocks *)
+Definition death_progs : list (list op) := [[OEnsure 1; OEnsure 2]; [OEnsure 1; OGc]].
+Definition death_sched : list nat := [0; 1; 0; 1; 0; 0; 0; 1; 1; 0; 0; 0; 0; 1; 1; 1; 1; 1]%nat.
+Lemma cv_death_example :
+  exists s, Reach 0 1000000 death_progs s /\ all_done s = true /\ (0 < sum (bdtor s))%nat /\ (2 <= length (tl (tables s)))%nat.
+Proof.
+  set (s := run st step (init 0 1000000 death_progs) death_sched).
+  exists s. split; [exists death_sched; reflexivity|]. vm_compute. repeat split; lia.
+Qed.
